@@ -16,6 +16,8 @@ class Boom(Exception):
 
 
 class CoroutinesAdapter:
+    multi = True      # where a coroutine joins the line is free in the specification and shows only a frame later
+
     def __init__(self, desper, K):
         self.desper = desper
         self.K = K
